@@ -2133,8 +2133,24 @@ func tokenlessHasBuffer(r *core.Run, rule string) {
 func noEarlyReturn(r *core.Run, rule string, fn *ssa.Function, what, consequence string) {
 	n := 0
 	for _, ret := range core.Returns(fn) {
-		_ = ret
-		n++
+		// "nothing registered / nothing collected yet" shortcuts are not early returns in this sense
+		empty := false
+		for _, g := range core.GuardsAt(ret) {
+			if bo, ok := g.Cond.(*ssa.BinOp); ok {
+				if arg, isLen := isLenCall(core.Strip(bo.X)); isLen {
+					if f, _ := core.FieldLoad(core.Strip(arg)); f != nil {
+						if k, isK := core.ConstInt64(bo.Y); isK && k == 0 && ((bo.Op == token.EQL && g.Pol) || (bo.Op == token.NEQ && !g.Pol) || (bo.Op == token.GTR && !g.Pol)) {
+							if strings.Contains(strings.ToLower(f.Name()), "hook") {
+								empty = true
+							}
+						}
+					}
+				}
+			}
+		}
+		if !empty {
+			n++
+		}
 	}
 	r.Check(n == 1, rule, what, fn.Pos(), "a single return, at the end", fmt.Sprintf("%s has %d returns: ", core.FuncName(fn), n)+consequence)
 }
@@ -2205,13 +2221,31 @@ func cmpLooksAtDeclaration(r *core.Run, rule string) {
 	fP := p.Field("asetypes", "Decimal", "Precision")
 	fS := p.Field("asetypes", "Decimal", "Scale")
 	why := ""
+	type cand struct {
+		v  ssa.Value
+		gs []core.Guard
+		at token.Pos
+	}
+	var cands []cand
 	for _, ret := range core.Returns(fn) {
 		v := core.RetVals(ret)[0]
+		if ph, isPhi := v.(*ssa.Phi); isPhi {
+			// a && b && c as a value: one candidate per input, under the conditions of its edge
+			for i, e := range ph.Edges {
+				cands = append(cands, cand{e, append(core.GuardsOnEdge(ph.Block().Preds[i], ph.Block()), core.GuardsAt(ret)...), ret.Pos()})
+			}
+			continue
+		}
+		cands = append(cands, cand{v, core.GuardsAt(ret), ret.Pos()})
+	}
+	for _, cd := range cands {
+		v := cd.v
+		ret := cd
 		if c, isC := v.(*ssa.Const); isC && c.Value != nil && c.Value.ExactString() == "false" {
 			continue
 		}
 		eq := map[*types.Var]bool{}
-		for _, g := range core.GuardsAt(ret) {
+		for _, g := range cd.gs {
 			bo, ok := g.Cond.(*ssa.BinOp)
 			if !ok {
 				continue
@@ -2223,7 +2257,7 @@ func cmpLooksAtDeclaration(r *core.Run, rule string) {
 			}
 		}
 		if !eq[fP] || !eq[fS] {
-			why = "Decimal.Cmp can answer " + core.Expr(v) + " (" + p.Pos(ret.Pos()) + ") without having compared precision and scale: two decimals that share their big.Int (a struct copy with another scale) compare equal although they denote different numbers"
+			why = "Decimal.Cmp can answer " + core.Expr(v) + " (" + p.Pos(ret.at) + ") without having compared precision and scale: two decimals that share their big.Int (a struct copy with another scale) compare equal although they denote different numbers"
 		}
 	}
 	r.Check(why == "", rule, "Decimal.Cmp: true only for equal precision, scale and magnitude", fn.Pos(), "non-false returns are under Precision == and Scale ==", why)
